@@ -4,6 +4,7 @@ import (
 	"fmt"
 	"go/constant"
 	"go/token"
+	"os"
 	"sort"
 	"strings"
 
@@ -24,6 +25,9 @@ func init() {
 }
 
 func runC01(c *Ctx) {
+	if os.Getenv("XJSCHECK_WFOLD") != "" {
+		c.debugWfold()
+	}
 	t := c.tables()
 	c.rule("R1.0", "extractors: lexeme table, parser tables, printer event trees, parse-path enumeration")
 	if c.extractorProblems(t, "lexemes", "parser", "printer") {
